@@ -78,6 +78,76 @@ def check_fields(ctx, ind, call, signs, m, tag):
     return True
 
 
+def _batch_passes(ctx, r, p, alg, batch, procs, signs, m, size, cons, cons_mode, crit, params):
+    from artap.individual import Individual
+    from artap.operators import ParetoDominance
+    passes = r.randint(1, 3)
+    mixed = False
+    for ps in range(passes):
+        uniq = list({id(b): b for b in batch}.values())
+        fresh = [b for b in uniq if b.state != Individual.State.EVALUATED]
+        done = [(b, b.costs, list(b.costs), list(b.costs_signed), list(b.vector)) for b in uniq
+                if b.state == Individual.State.EVALUATED]
+        if fresh and done:
+            mixed = True
+        n0 = len(p.calls)
+        try:
+            alg.evaluate(batch)
+        except Exception as e:
+            ctx.violation("batch/exception", "Algorithm.evaluate raised %r" % e, {"size": size})
+            return
+        new_calls = p.calls[n0:]
+        ctx.count("batch_evaluations")
+        wit = lambda: {"batch": size, "fresh": len(fresh), "already_evaluated": len(done), "objective_calls": len(new_calls), "pass": ps}
+        if len(new_calls) != len(fresh):
+            ctx.violation("calls/count/" + ("evaluated_design_re-evaluated" if len(new_calls) > len(fresh) else "fresh_design_skipped"),
+                          "objective called %d times for %d not-yet-evaluated designs" % (len(new_calls), len(fresh)), wit())
+            return
+        if procs == 1:
+            pairs_ = list(zip(fresh, new_calls))      # serial evaluation keeps batch order
+        else:
+            ctx.count("parallel_batch_evaluations")
+            by_id = {}
+            for c in new_calls:
+                by_id.setdefault(c.ind_id, []).append(c)
+            if any(len(v) != 1 for v in by_id.values()) or set(by_id) != {b.id for b in fresh}:
+                ctx.violation("calls/per_design", "objective not called exactly once per not-yet-evaluated design "
+                              "(parallel evaluation)", wit())
+                return
+            pairs_ = [(b, by_id[b.id][0]) for b in fresh]
+        for b, c in pairs_:
+            if not check_fields(ctx, b, c, signs, m, "batch"):
+                return
+        for b, obj, costs, cs, vec in done:
+            if b.costs is not obj or list(b.costs) != costs or list(b.costs_signed) != cs or list(b.vector) != vec:
+                ctx.violation("calls/evaluated_design_touched", "an already evaluated design was modified", wit())
+                return
+    # marker semantics through the real comparator
+    if cons is not None:
+        uniq = list({id(b): b for b in batch}.values())
+        feas = [b for b in uniq if all(g < 0 for g in cons(b.vector))]
+        viol = [b for b in uniq if not all(g < 0 for g in cons(b.vector))]
+        cmpr = ParetoDominance()
+        for a in feas[:6]:
+            for b in viol[:6]:
+                ctx.count("marker_rank_checks")
+                if cmpr.compare(a.costs_signed, b.costs_signed) != 1:
+                    ctx.violation("marker/feasible_not_first", "a design satisfying all constraints (g<0) is not ranked ahead "
+                                  "of a violating one", {"feasible": {"g": cons(a.vector), "cs": a.costs_signed},
+                                                         "violating": {"g": cons(b.vector), "cs": b.costs_signed}})
+                    return
+        for grp in (feas, viol):
+            if len({oracles.marker(b.costs_signed[-1]) for b in grp}) > 1:
+                ctx.violation("marker/unequal_within_class", "designs of equal feasibility carry different markers",
+                              {"markers": [b.costs_signed[-1] for b in grp]})
+                return
+    if mixed or -1 in signs or cons is not None:
+        ctx.nontrivial(("b", params["seed"]))
+    ctx.count("cases")
+    ctx.sample({"batch": size, "objectives": m, "criteria": crit, "constraints": cons_mode, "passes": passes,
+                "first": {"vector": batch[0].vector, "costs": batch[0].costs, "costs_signed": batch[0].costs_signed}}, "batch")
+
+
 def run_case(ctx, name, params):
     from artap.individual import Individual
     from artap.algorithm import DummyAlgorithm
@@ -94,9 +164,17 @@ def run_case(ctx, name, params):
             cons = lambda x: [x[0]]
         elif cons_mode == "two":
             cons = lambda x: [x[0], x[-1] - 0.5]
-        p = hooks.make_problem(n=n, m=m, criteria=crit, fn=objective(r, m), cons=cons, bounds=[[-1.0, 1.0]] * n)
-        alg = DummyAlgorithm(p)
         procs = r.choice([1, 1, 1, 2, 3])
+        S = None
+        eg = None
+        if procs > 1:
+            # worker threads are parked at objective entry and released in a seeded order, so that evaluations of different
+            # designs really overlap (one thread computes constraints while another is inside the objective)
+            from .. import sched
+            S = sched.Scheduler(params["seed"], r.choice(sched.Scheduler.POLICIES), expected=procs)
+            eg = lambda c: S.gate("obj_enter")
+        p = hooks.make_problem(n=n, m=m, criteria=crit, fn=objective(r, m), cons=cons, bounds=[[-1.0, 1.0]] * n, entry_gate=eg)
+        alg = DummyAlgorithm(p)
         alg.options["max_processes"] = procs
         size = r.randint(1, 30)
         batch = []
@@ -112,73 +190,15 @@ def run_case(ctx, name, params):
             batch.append(ind)
         # pre-evaluate a random subset through the real path, so that they are genuinely EVALUATED
         pre = [b for b in batch if r.random() < 0.35]
-        if pre:
-            alg.evaluate(pre)
-        passes = r.randint(1, 3)
-        mixed = False
-        for ps in range(passes):
-            uniq = list({id(b): b for b in batch}.values())
-            fresh = [b for b in uniq if b.state != Individual.State.EVALUATED]
-            done = [(b, b.costs, list(b.costs), list(b.costs_signed), list(b.vector)) for b in uniq
-                    if b.state == Individual.State.EVALUATED]
-            if fresh and done:
-                mixed = True
-            n0 = len(p.calls)
-            try:
-                alg.evaluate(batch)
-            except Exception as e:
-                ctx.violation("batch/exception", "Algorithm.evaluate raised %r" % e, {"size": size})
-                return
-            new_calls = p.calls[n0:]
-            ctx.count("batch_evaluations")
-            wit = lambda: {"batch": size, "fresh": len(fresh), "already_evaluated": len(done), "objective_calls": len(new_calls), "pass": ps}
-            if len(new_calls) != len(fresh):
-                ctx.violation("calls/count/" + ("evaluated_design_re-evaluated" if len(new_calls) > len(fresh) else "fresh_design_skipped"),
-                              "objective called %d times for %d not-yet-evaluated designs" % (len(new_calls), len(fresh)), wit())
-                return
-            if procs == 1:
-                pairs_ = list(zip(fresh, new_calls))      # serial evaluation keeps batch order
-            else:
-                ctx.count("parallel_batch_evaluations")
-                by_id = {}
-                for c in new_calls:
-                    by_id.setdefault(c.ind_id, []).append(c)
-                if any(len(v) != 1 for v in by_id.values()) or set(by_id) != {b.id for b in fresh}:
-                    ctx.violation("calls/per_design", "objective not called exactly once per not-yet-evaluated design "
-                                  "(parallel evaluation)", wit())
-                    return
-                pairs_ = [(b, by_id[b.id][0]) for b in fresh]
-            for b, c in pairs_:
-                if not check_fields(ctx, b, c, signs, m, "batch"):
-                    return
-            for b, obj, costs, cs, vec in done:
-                if b.costs is not obj or list(b.costs) != costs or list(b.costs_signed) != cs or list(b.vector) != vec:
-                    ctx.violation("calls/evaluated_design_touched", "an already evaluated design was modified", wit())
-                    return
-        # marker semantics through the real comparator
-        if cons is not None:
-            uniq = list({id(b): b for b in batch}.values())
-            feas = [b for b in uniq if all(g < 0 for g in cons(b.vector))]
-            viol = [b for b in uniq if not all(g < 0 for g in cons(b.vector))]
-            cmpr = ParetoDominance()
-            for a in feas[:6]:
-                for b in viol[:6]:
-                    ctx.count("marker_rank_checks")
-                    if cmpr.compare(a.costs_signed, b.costs_signed) != 1:
-                        ctx.violation("marker/feasible_not_first", "a design satisfying all constraints (g<0) is not ranked ahead "
-                                      "of a violating one", {"feasible": {"g": cons(a.vector), "cs": a.costs_signed},
-                                                             "violating": {"g": cons(b.vector), "cs": b.costs_signed}})
-                        return
-            for grp in (feas, viol):
-                if len({oracles.marker(b.costs_signed[-1]) for b in grp}) > 1:
-                    ctx.violation("marker/unequal_within_class", "designs of equal feasibility carry different markers",
-                                  {"markers": [b.costs_signed[-1] for b in grp]})
-                    return
-        if mixed or -1 in signs or cons is not None:
-            ctx.nontrivial(("b", params["seed"]))
-        ctx.count("cases")
-        ctx.sample({"batch": size, "objectives": m, "criteria": crit, "constraints": cons_mode, "passes": passes,
-                    "first": {"vector": batch[0].vector, "costs": batch[0].costs, "costs_signed": batch[0].costs_signed}}, "batch")
+        try:
+            if pre:
+                alg.evaluate(pre)
+            ok_ = _batch_passes(ctx, r, p, alg, batch, procs, signs, m, size, cons, cons_mode, crit, params)
+        finally:
+            if S is not None:
+                S.shutdown()
+                ctx.count("scheduler_grants", S.grants)
+        return
     elif name == "sweep":
         from artap import operators
         from artap.algorithm_sweep import SweepAlgorithm
